@@ -75,6 +75,29 @@ def make(c):
     return block.BlockRun(c)
 
 
+REAL_POST = ('vf.props._hist:check_tiling', 'vf.props._hist:check_real')
+REAL_LIMITERS = {'none': {}, 'slope': {'dt_slope_min': 0.5, 'dt_slope_max': 1.5}, 'minmax': {'dt_min': 5e-3, 'dt_max': 0.08}}
+
+
+def real_cfgs(tier):
+    out = []
+    ests = ['embedded', 'rk', 'polynomial', 'extrapolation']
+    probs = ['vdp', 'lorenz', 'heat', 'dahlquist']
+    tols = [1e-3, 1e-5, 1e-7] if tier == 'thorough' else [1e-3, 1e-6]
+    for est in ests:
+        for prob in probs:
+            for tol in tols:
+                for P in ((1, 2, 3) if est == 'embedded' else (1,)):
+                    for lname in (list(REAL_LIMITERS) if tier == 'thorough' or (est == 'embedded' and P == 1) else ['none']):
+                        out.append(
+                            block.default_cfg(
+                                P=P, K=4, jac=False, factory='vf.env.realruns:make', real={'estimator': est, 'problem': prob, 'tol': tol, 'limiter': REAL_LIMITERS[lname], 'restarting': {'max_restarts': 10}},
+                                Tend=0.3 if prob != 'lorenz' else 0.1, checks=('protocol',), post_checks=REAL_POST, max_blocks=5000, max_macro=600,
+                            )
+                        )
+    return out
+
+
 def run(rep, tier):
     rep.assumptions += [
         'environment = scripted error estimates (alphabet x e_tol: ' + str([0.5, 2.0, 0.01, 1.0, 100.0, 0.999]) + ' (quick: the first four)' + ') through the real Adaptivity controller, and direct restart requests; real BasicRestartingNonMPI, SpreadStepSizesBlockwiseNonMPI, StepSizeLimiter, StepSizeSlopeLimiter, controller_nonMPI',
@@ -89,6 +112,7 @@ def run(rep, tier):
         plan.append(('estimates, config ball radius 1 incl. P=4, <=3 deviations', [to_cfg(c) for c in ball(1, Ps=(1, 2, 3, 4))], 3))
         plan.append(('direct restart requests, P in 2..4, <=4 requests', [cfg(P=P, adaptive=None, restart_script=True, restarting={'max_restarts': m, 'restart_from_first_step': ff, 'crash_after_max_restarts': cr}) for P in (2, 3, 4) for m in (0, 1, 2) for ff in (False, True) for cr in (True, False)], 4))
         plan.append(('estimates + direct requests together, P=3, <=3 deviations', [cfg(P=3, restart_script=True, restarting={'max_restarts': m}) for m in (1, 2)], 3))
+    plan.append(('real adaptive runs (no scripted environment): estimator x problem x tolerance x P x limiter', real_cfgs(tier), 0))
     bounds = []
     for label, vs, bound in plan:
         res = _e1.explore_variants(rep, make, vs, bound=bound, label=label)
